@@ -251,6 +251,8 @@ def explore_writer(acc, wname, depth, states_out):
         my_ops = [(s, o) for s, o in ops if json.dumps(o.get("init", {}), sort_keys=True) == init_js]
         seen = set()
         frontier = [[]]
+        hits = 0
+        probed = 0
         g0 = canon.global_state()
         for level in range(depth):
             nxt = []
@@ -288,8 +290,17 @@ def explore_writer(acc, wname, depth, states_out):
                         # cache would do the same); probe every write of the menu with FRESH writer objects in this
                         # process and compare with the pristine outputs
                         changed_keys = canon.diff_state(g0, g1)
-                        hit = probe_after_pollution(acc, wname, init, h2, ops, changed_keys)
-                        acc.count("histories_that_changed_global_state" + ("" if hit else "_but_no_output"))
+                        if hits >= 3 or probed >= 5:
+                            # the pollution has been demonstrated three times in this shard already, or five histories
+                            # that change the process state were probed without any effect on an output (a harmless
+                            # cache): further ones are not probed - it keeps such a tree from taking hours
+                            hit = False
+                            acc.count("histories_that_changed_global_state_not_probed")
+                        else:
+                            hit = probe_after_pollution(acc, wname, init, h2, ops, changed_keys)
+                            hits += 1 if hit else 0
+                            probed += 1
+                            acc.count("histories_that_changed_global_state" + ("" if hit else "_but_no_output"))
                         bad = True
                         restore_globals()
                         g0 = canon.global_state()
